@@ -291,6 +291,12 @@ class Gen:
         c = r.random()
         if r.random() < 0.07:
             return self.alias_probe(sc)
+        if self.tracer and r.random() < 0.05:
+            # a comparison chain whose value is not used: the operands are still evaluated left to right, each once, and
+            # evaluation stops at the first false link (guide: chained comparisons), wherever the expression stands
+            n = r.choice([2, 3, 3])
+            xs = [App(Id("t"), [self.lit_num() if r.random() < 0.7 else self.expr(sc, "num", 1)]) for _ in range(n + 1)]
+            return Cmp([r.choice(CMPS) for _ in range(n)], xs)
         if r.random() < 0.04:
             # a function literal whose value is not used: creating a function runs nothing
             body = [Core("print", [Str("never")])]
